@@ -84,6 +84,8 @@ struct State {
   uintptr_t pending_addr = 0;
   bool pending_huge = false;
   uintptr_t harness_cursor[kWinCount] = {};
+  Observer observer = nullptr;
+  void* observer_ctx = nullptr;
 };
 static State& st() { static State* s = new State(); return *s; }
 
@@ -132,6 +134,7 @@ void configure(int window, int policy, int hugetlb_grant, uint64_t seed) {
 }
 
 void arm(bool on) { st().armed = on; }
+void set_observer(Observer fn, void* ctx) { st().observer = fn; st().observer_ctx = ctx; }
 bool armed() { return st().armed; }
 
 static bool overlaps(uintptr_t a, size_t n) {
@@ -240,6 +243,9 @@ void reset_run_generation() {
   State& s = st();
   s.gen++;
   s.armed = false;
+  s.observer = nullptr; s.observer_ctx = nullptr;
+  s.next_file_id = 1;
+  s.closed_fds.clear();
   s.pending_valid = false;
   s.window = kWinLow; s.policy = kAscending; s.hugetlb_grant = 0;
   s.rng = Rng(1);
@@ -335,6 +341,7 @@ extern "C" void* __wrap_mmap(void* addr, size_t len, int prot, int flags, int fd
   vm::Mapping m{want, len, prot, file_id, s.gen, g.in_run ? current_op_index() : 0, false, huge, s.serial++};
   s.maps[want] = m;
   if (g.in_run) logf("mmap %#zx +%zu prot=%d file=%llu", size_t(want), len, prot, (unsigned long long)file_id);
+  if (s.observer) s.observer(s.observer_ctx, true, m);
   return p;
 }
 
@@ -350,10 +357,19 @@ extern "C" int __wrap_munmap(void* addr, size_t len) {
   if (it->second.size != len && g.in_run) fail("vm:bad-munmap-length", "munmap(%#zx, %zu): mapping has %zu bytes", size_t(addr), len, it->second.size);
   if (g.in_run) {
     sched_point(kSchedVM);
-    if (fault_fires(kFaultMunmap)) { it->second.excused = true; errno = EINVAL; return -1; }
+    if (fault_fires(kFaultMunmap)) {
+      // The caller cannot do anything about a failed munmap: the mapping stays (excused from the leak check) and the
+      // observer is told that the owner gave it up.
+      it->second.excused = true;
+      if (s.observer) s.observer(s.observer_ctx, false, it->second);
+      errno = EINVAL;
+      return -1;
+    }
     logf("munmap %#zx +%zu", size_t(addr), len);
   }
+  vm::Mapping gone = it->second;
   s.maps.erase(it);
+  if (s.observer) s.observer(s.observer_ctx, false, gone);
   return __real_munmap(addr, len);
 }
 
@@ -376,7 +392,8 @@ extern "C" int __wrap_madvise(void* addr, size_t len, int advice) {
   return 0;
 }
 
-extern "C" long __wrap_syscall(long number, ...) {
+// Reads six variadic slots regardless of how many the caller passed (like libc's syscall()), hence no ASan here.
+extern "C" __attribute__((no_sanitize("address"))) long __wrap_syscall(long number, ...) {
   va_list ap; va_start(ap, number);
   long a0 = va_arg(ap, long), a1 = va_arg(ap, long), a2 = va_arg(ap, long), a3 = va_arg(ap, long), a4 = va_arg(ap, long), a5 = va_arg(ap, long);
   va_end(ap);
